@@ -666,7 +666,11 @@ struct CtxSim {
 				if (build_block(ctx, blk, true)) { hash = blk.root; level = (uint64_t)blk.root_level; }
 				else { free_block(blk); blk.leaf_imps.clear(); }
 			}
+			// one of the source signatures carries an unknown non-critical element whose length sits on the TLV8 / TLV16 boundary
+			static const int extra_lens[] = {-1, 254, 255, 256, 0, 300};
+			bw.world.sig_extra_len = i == 0 ? extra_lens[plan.c("sig_extra", 0) % 6] : -1;
 			std::string bytes = bw.world.make_signature(hash, level, 700 + i + plan.seed % 89, i != 1, m);
+			bw.world.sig_extra_len = -1;
 			int res = 0;
 			KSI_Signature *s = sdk::parse_sig(ctx, bytes, &res);
 			if (!s) { K.fail("C11", "reference-signature-rejected", "setup", "the SDK refuses a signature built by the reference world (0x%x)", res); continue; }
@@ -748,6 +752,7 @@ struct HistoryEngine : run::Engine {
 		p.cfg["loglevel"] = g.chance(1, 4) ? 5 : 0;
 		p.cfg["epoch_ms"] = (int64_t)g.below(1000);
 		p.cfg["warm"] = g.chance(1, 25) ? (int64_t)g.range(250, 258) : 0;
+		p.cfg["sig_extra"] = g.chance(1, 2) ? 0 : (int64_t)g.range(1, 5);
 		p.cfg["block_leaves"] = (int64_t)g.below(5);
 		p.cfg["block_leaf_level"] = g.chance(2, 3) ? 0 : (int64_t)g.range(1, 2);
 		int n = tier ? (int)g.range(10, 60) : (int)g.range(4, 24);
